@@ -1453,6 +1453,27 @@ M("SEED-C18-e", ["C18"], [("@patch", "seeded/C18-e/patch.diff", "")], ["C18/ack/
 M("SEED-C19-e", ["C19"], [("@patch", "seeded/C19-e/patch.diff", "")], ["C19/dead/fatal-inbound/handle_packet#1"])
 M("SEED-C20-e", ["C20"], [("@patch", "seeded/C20-e/patch.diff", "")], ["C20/publication/with_properties-keeps-correlation"])
 
+# seeds of round 6 (small local edits: an operator off by one, two arguments transposed, the wrong sibling variant, a guard moved by a line)
+M("SEED-C01-f", ["C01"], [("@patch", "seeded/C01-f/patch.diff", "")], ["C01/bits/connect/will-retain"])
+M("SEED-C02-f", ["C02"], [("@patch", "seeded/C02-f/patch.diff", "")], ["C02/once/latch-only/process_received_packet"])
+M("SEED-C03-f", ["C03"], [("@patch", "seeded/C03-f/patch.diff", "")], ["C03/reason/success-table"])
+M("SEED-C04-f", ["C04"], [("@patch", "seeded/C04-f/patch.diff", "")], ["C04/rx/window"])
+M("SEED-C05-f", ["C05"], [("@patch", "seeded/C05-f/patch.diff", "")], ["C05/reason/success-table"])
+M("SEED-C06-f", ["C06"], [("@patch", "seeded/C06-f/patch.diff", "")], ["C06/rel/after-reason#1"])
+M("SEED-C07-f", ["C07"], [("@patch", "seeded/C07-f/patch.diff", "")], ["C07/fresh/retained"])
+M("SEED-C08-f", ["C08"], [("@patch", "seeded/C08-f/patch.diff", "")], ["C08/decode/TopicAliasMaximum"])
+M("SEED-C09-f", ["C09"], [("@patch", "seeded/C09-f/patch.diff", "")], ["C09/bits/suboptions/no-local"])
+M("SEED-C10-f", ["C10"], [("@patch", "seeded/C10-f/patch.diff", "")], ["C10/race/next-deadline-table"])
+M("SEED-C11-f", ["C11"], [("@patch", "seeded/C11-f/patch.diff", "")], ["C11/fatal/publish/write_all#1"])
+M("SEED-C12-f", ["C12"], [("@patch", "seeded/C12-f/patch.diff", "")], ["C12/usable/per-connection/maximum_packet_size"])
+M("SEED-C13-f", ["C13"], [("@patch", "seeded/C13-f/patch.diff", "")], ["C13/sent/kind/Retained#3"])
+M("SEED-C14-f", ["C14"], [("@patch", "seeded/C14-f/patch.diff", "")], ["C14/tx/enqueue-length/subscribe"])
+M("SEED-C15-f", ["C15"], [("@patch", "seeded/C15-f/patch.diff", "")], ["C15/store/step-accumulates"])
+M("SEED-C17-f", ["C17"], [("@patch", "seeded/C17-f/patch.diff", "")], ["C17/slots/released/PubRec/reason-always-checked"])
+M("SEED-C18-f", ["C18"], [("@patch", "seeded/C18-f/patch.diff", "")], ["C18/status/connection/is_complete"])
+M("SEED-C19-f", ["C19"], [("@patch", "seeded/C19-f/patch.diff", "")], ["C19/value/SubscriptionIdentifier"])
+M("SEED-C20-f", ["C20"], [("@patch", "seeded/C20-f/patch.diff", "")], ["C20/target/correlation"])
+
 # third round: property-centred behaviour-preserving refactorings (five per property, around that property's anchors)
 for _p in sorted(_glob.glob(_os.path.join(_os.path.dirname(_os.path.abspath(__file__)), "refactors", "rf3", "*.diff"))):
     RF("RF3-" + _os.path.basename(_p)[:-5], ALL19, [("@patch", "selftest/refactors/rf3/" + _os.path.basename(_p), "")])
@@ -1510,8 +1531,8 @@ KNOWN_LIMITS = {
     "RF4-C13-04-packet-reader-combinators": ("as above (position + fold over take(4) in the fixed-header probe)", ["C08/panic/", "C08/varint/reader-probe"]),
     # round 5: re-representation of *anchored state* (the fields the properties' anchors name): the rules are written in
     # terms of that state and fail closed (DESIGN.md 2.5 / 8)
-    "RF5-C05-01-broker-session-enum": ("`session_present: bool` (anchored state of C05/C12) becomes a private enum", ["C02/", "C04/", "C05/", "C06/", "C12/", "C18/"]),
-    "RF5-C12-03-session-present-flag-moves-to-session": ("`session_present` moves from SessionData to Session (anchored state)", ["C02/", "C04/", "C05/", "C06/", "C12/", "C18/"]),
+    "RF5-C05-01-broker-session-enum": ("`session_present: bool` (anchored state of C05/C12) becomes a private enum", ["C02/", "C04/", "C05/", "C06/", "C12/", "C18/", "C17/ANCHOR-LOST/quota/"]),
+    "RF5-C12-03-session-present-flag-moves-to-session": ("`session_present` moves from SessionData to Session (anchored state)", ["C02/", "C04/", "C05/", "C06/", "C12/", "C18/", "C17/ANCHOR-LOST/quota/"]),
     "RF5-C08-01-framing-enum": ("`PacketReader::packet_length: Option<usize>` (anchored state of C08/C12/C14/C15) becomes a private enum", ["C08/", "C12/", "C14/", "C15/"]),
     "RF5-C12-04-packet-reader-length-flag": ("`packet_length: Option<usize>` becomes value + flag (anchored state)", ["C08/", "C12/", "C14/", "C15/"]),
     "RF5-C13-05-packet-reader-frame-enum": ("`packet_length: Option<usize>` becomes a private enum (anchored state)", ["C08/", "C12/", "C14/", "C15/"]),
